@@ -5,3 +5,4 @@ import PgmVerif.Model.VE
 import PgmVerif.Model.CPD
 import PgmVerif.Model.Graph
 import PgmVerif.Model.History
+import PgmVerif.Model.Learn
